@@ -124,7 +124,7 @@ CHECKS["C05"] = dict(
           "groupKernel_eq_def, which includes the proof that the dispatch's blocks concatenate to rows[mask]); unselected_rows_inert; for row-aligned "
           "operations cum_mask_eq_filter, rolling_sum/mean_mask_eq_filter, rolling_extremum_mask_eq_filter (max / min) and rolling_shift_diff_mask_eq_filter: "
           "at every selected row the masked run equals the run on the filtered data at the row's rank. Metamorphic correspondence on the public API for every maskable operation (reductions incl. var/std/median, cumulative, rolling, "
-          "shift/diff, EMA plain and timed) plus overwrite-unselected-values test. Source level (new): source_positions_eq_filter / source_bool_mask_eq_filter (translated kernel through an indexer = translated kernel on the selected rows, no bounds error) and source_cum_mask_eq_filter (translated cumulative loop, rank of the row among the selected rows)."),
+          "shift/diff, EMA plain and timed) plus overwrite-unselected-values test. Source level (new): source_positions_eq_filter / source_bool_mask_eq_filter (translated kernel through an indexer = translated kernel on the selected rows, no bounds error) source_cum_mask_eq_filter (translated cumulative loop, rank of the row among the selected rows), source_rolling_sum_mask_eq_filter / source_rolling_max_mask_eq_filter (translated rolling kernels, via the generic WindowFn lemma)."),
     note="The EMA kernels are covered by the metamorphic run (and C10's group-independence theorems); the public pipeline above the kernels (observed filter under a mask) by correspondence. Open finding: untimed EMA treats masked rows as null values (pinned by tests).",
     technique="Lean 4 proof (corollaries of the kernel contract and of the prefix theorems; list rank/filter lemma) + metamorphic differential testing of masked vs filtered executions",
     design="§7 C05",
@@ -136,7 +136,7 @@ CHECKS["C06"] = dict(
           "unchanged by deleting the null-key rows (dropNull_at_rank rank lemma + prefix theorems), and a null-key row receives a marker that depends on no "
           "other row; the obligation all_guards_present ties this to the `key < 0` guards of the current source (extracted by the translator for nine loops). "
           "Metamorphic correspondence: every public operation (reductions, transform, cumulative, rolling, shift/diff, EMA, head/tail/nth, groups, "
-          "group_nearby_members; source level (new): source_null_rows_inert_reduction, source_cum_null_rows_inert, source_cum_null_row_marker relate two runs of the translated loops; group_nearby_members is translated and bridged (LoopBridge/Nearby) with source_nearby_spec - what every row's sub-group number is - and source_nearby_null_rows_inert) on data with nulls in any key position (single keys also behind a two-chunk arrow key with chunk-local codes) vs the same data with those rows deleted; constancy of the marker."),
+          "group_nearby_members; source level (new): source_null_rows_inert_reduction, source_cum_null_rows_inert, source_cum_null_row_marker relate two runs of the translated loops; source_rolling_sum_null_rows_inert / source_rolling_max_null_rows_inert / source_ema_null_rows_inert do the same for the translated rolling and EMA kernels; group_nearby_members is translated and bridged (LoopBridge/Nearby) with source_nearby_spec - what every row's sub-group number is - and source_nearby_null_rows_inert) on data with nulls in any key position (single keys also behind a two-chunk arrow key with chunk-local codes) vs the same data with those rows deleted; constancy of the marker."),
     note="Row selection is covered at the model level by its own property (C15) and here by the metamorphic run.",
     technique="Lean 4 proof (corollaries of kernel contract / prefix theorems via a rank lemma; source guard facts) + metamorphic differential testing",
     design="§7 C06",
